@@ -98,6 +98,23 @@ def bucket_features(case):
     parents = {u for u, v in g["di"]}
     if any(it["val"] and it["v"] in parents for it in items):
         f.add("plus-value-on-a-parent")
+    # a '+'-valued event variable that has a proper descendant among the event variables (its value then has to be
+    # carried into that descendant's district as a subscript, which is where the mark is lost)
+    desc = {}
+    for n in g["nodes"]:
+        d, stack = set(), [n]
+        while stack:
+            x = stack.pop()
+            for u, v in g["di"]:
+                if u == x and v not in d:
+                    d.add(v)
+                    stack.append(v)
+        desc[n] = d
+    ev_names = {it["v"] for it in items}
+    if any(it["val"] and (desc[it["v"]] & ev_names) for it in items):
+        f.add("plus-value-above-event-variable")
+    if any(it["val"] and any(it["v"] == n for j in items for n, _ in j["do"]) for it in items):
+        f.add("plus-value-name-is-a-subscript")
     return {x for x in f if not x.startswith("worlds=")} | ({"multiworld"} if "worlds=1" not in f else set())
 
 
